@@ -7,6 +7,7 @@ CONSTANTS
   HKeys = {"h1"}
   Buckets = {1}
   IncVals = {1, 2}
+  RecCounts = {1}
   ReaderMode = "swap"
 SPECIFICATION Spec
 INVARIANT BridgeInv
